@@ -490,9 +490,15 @@ theorem handleData_fw (e : Engine) (bs : Bytes) : FW e (e.handleData bs).1 := by
     · simp only []
       have h1 : FW e ({ e with dec := (decodeBytes { version := e.cfg.version, maxSize := e.inboundMax } e.dec bs).dec } : Engine) :=
         (FW.of_eq rfl rfl rfl rfl rfl rfl rfl rfl)
+      have h2 := h1.trans (handlePackets_fw (decodeBytes { version := e.cfg.version, maxSize := e.inboundMax } e.dec bs).packets _)
+      generalize ({ e with dec := (decodeBytes { version := e.cfg.version, maxSize := e.inboundMax } e.dec bs).dec } : Engine).handlePackets (decodeBytes { version := e.cfg.version, maxSize := e.inboundMax } e.dec bs).packets = x at h2 ⊢
+      obtain ⟨e2, r2⟩ := x
+      simp only [] at h2 ⊢
       split
-      · exact h1.halt
-      · exact h1.trans (handlePackets_fw _ _)
+      · exact h2
+      · split
+        · exact h2.halt
+        · exact h2
 
 /-! ### the encoder: what is left over, and what a call emits -/
 
@@ -1051,8 +1057,14 @@ theorem serviceCore_w (e : Engine) (cap prefill : Nat) (h : PW e) :
       · exact serviceQueue_w e false cap prefill h
   | connected =>
     simp only []
-    have ha := h.of_fw (serviceKeepAlive_fw e)
-    generalize e.serviceKeepAlive = ka at ha ⊢
+    have h0 := h.of_fw (processAckTimeouts_fw (e.timeouts.length + 1) e)
+    generalize Engine.processAckTimeouts (e.timeouts.length + 1) e = p0 at h0 ⊢
+    obtain ⟨e0, r0⟩ := p0
+    simp only [] at h0 ⊢
+    split
+    · exact ⟨h0.1, fun _ => h0.2⟩
+    have ha := h0.of_fw (serviceKeepAlive_fw e0)
+    generalize e0.serviceKeepAlive = ka at ha ⊢
     obtain ⟨ea, ra⟩ := ka
     simp only [] at ha ⊢
     split
@@ -1384,8 +1396,14 @@ theorem service_ka (e : Engine) (cap prefill : Nat) (h : KA e) : KA (e.service c
         · exact serviceQueue_ka e false cap prefill h
     | connected =>
       simp only []
-      have ha := h.of_fw (serviceKeepAlive_fw e)
-      generalize e.serviceKeepAlive = ka at ha ⊢
+      have h0 := h.of_fw (processAckTimeouts_fw (e.timeouts.length + 1) e)
+      generalize Engine.processAckTimeouts (e.timeouts.length + 1) e = p0 at h0 ⊢
+      obtain ⟨e0, r0⟩ := p0
+      simp only [] at h0 ⊢
+      split
+      · exact h0
+      have ha := h0.of_fw (serviceKeepAlive_fw e0)
+      generalize e0.serviceKeepAlive = ka at ha ⊢
       obtain ⟨ea, ra⟩ := ka
       simp only [] at ha ⊢
       split
